@@ -40,10 +40,43 @@ pub fn leaf_text(id: u32) -> String {
     leaf(id).to_string()
 }
 
+/// Some leaves carry a span: token `id % 32` of a 32-token text parsed once per thread. A recorded
+/// error is recorded with its span; the column of the token is appended to the observed / expected
+/// leaf text as `@<column>`.
+pub fn span_slot(id: u32) -> Option<usize> {
+    if id % 3 == 1 {
+        Some((id % 32) as usize)
+    } else {
+        None
+    }
+}
+
+pub fn slot_column(slot: usize) -> usize {
+    4 * slot
+}
+
+fn span_of_slot(slot: usize) -> proc_macro2::Span {
+    thread_local! {
+        static SPANS: Vec<proc_macro2::Span> = {
+            let text: String = (0..32).map(|i| format!("t{:02} ", i)).collect();
+            let ts: proc_macro2::TokenStream = text.parse().expect("span text");
+            ts.into_iter().map(|t| t.span()).collect()
+        };
+    }
+    SPANS.with(|s| s[slot])
+}
+
+fn with_leaf_span(id: u32, e: Error) -> Error {
+    match span_slot(id) {
+        Some(slot) => e.with_span(&span_of_slot(slot)),
+        None => e,
+    }
+}
+
 pub fn build(e: &ErrSpec) -> Error {
     match e {
-        ErrSpec::Single(id) => leaf(*id),
-        ErrSpec::Located(id, seg) => leaf(*id).at(seg),
+        ErrSpec::Single(id) => with_leaf_span(*id, leaf(*id)),
+        ErrSpec::Located(id, seg) => with_leaf_span(*id, leaf(*id)).at(seg),
         ErrSpec::Bundle(children, at) => {
             let b = Error::multiple(children.iter().map(build).collect());
             match at {
@@ -55,7 +88,13 @@ pub fn build(e: &ErrSpec) -> Error {
 }
 
 pub fn leaves_of(e: Error) -> Vec<String> {
-    e.flatten().into_iter().map(|l| l.to_string()).collect()
+    e.flatten()
+        .into_iter()
+        .map(|l| match l.explicit_span() {
+            Some(sp) => format!("{} @{}", l, sp.start().column),
+            None => l.to_string(),
+        })
+        .collect()
 }
 
 pub fn payload_of(p: Box<dyn Any + Send>) -> Payload {
